@@ -15,6 +15,8 @@ def eff_in(t, name):
 
 
 class QueueAnalysis:
+    inplace_updaters = None
+
     def __init__(self, ctx):
         self.ctx = ctx
         self.db = ctx.db
@@ -26,10 +28,14 @@ class QueueAnalysis:
             raise AnchorError("OrderQueue: expected exactly one DashMap field and one SegQueue field")
         self.map_field, self.ticket_field = m[0], t[0]
         self._cache = {}
+        self.inplace_updaters = set()
 
     def walker(self):
+        from .level import entry_model, entry_write
         w = self.ctx.walker()
         w.effect_of = make_effect_fn({"ATOMIC", "MAP", "TICKET", "NONDET"})
+        w.custom_model = entry_model
+        w.on_heap_write = entry_write
         return w
 
     def paths(self, name, trait=None):
@@ -240,9 +246,48 @@ class QueueAnalysis:
                 elif c == "TICKET" and m in ("len", "is_empty"):
                     # reading the ticket count is harmless but must not feed len()/is_empty() (Y1)
                     pass
+                elif c == "MAP" and m == "get_mut" and in_queue_impl and self._inplace_updater(owner):
+                    # an in-place update primitive: locks one entry of the id map and (at most) overwrites its value;
+                    # it inserts / removes nothing and never touches the tickets, so the FIFO shape is unchanged.
+                    # That the stored order keeps the key's id is checked where the replacement value is known:
+                    # by an id guard inside the primitive (rule_inplace_guard) or at every crate call site (level rules)
+                    self.inplace_updaters.add(owner.defp)
                 else:
                     chk.fail(rid, "%s:%s.%s:unexpected" % (d, c, m), span, "unexpected container operation %s.%s in %s" % (c, m, d))
         chk.require(n >= 6, rid, "container-ops-found", "", "only %d container operations found" % n)
+        self.rule_inplace_guard(chk, rid)
+
+    def _inplace_updater(self, owner):
+        """owner (an OrderQueue method) and its closures perform no container operation except MAP.get_mut / reads"""
+        cg = self.ctx.cg
+        bodies = [owner.defp] + [c.defp for c in self.db.closures_of(owner.defp)]
+        for d in bodies:
+            for c, m, bb, callee, span in cg.direct.get(d, []):
+                if c == "TICKET" and m not in ("len", "is_empty"):
+                    return False
+                if c == "MAP" and m not in ("get_mut", "get", "len", "is_empty", "contains_key", "iter"):
+                    return False
+        return True
+
+    def rule_inplace_guard(self, chk, rid):
+        """a *public* in-place update primitive must itself refuse a replacement whose id differs from the key (a
+        crate-internal one is checked at its call sites by the level rules)"""
+        for d in sorted(self.inplace_updaters):
+            b = self.db.bodies[d]
+            if getattr(b, "vis", None) != "pub":
+                chk.ok(rid, d + ":inplace-crate-internal", b.span)
+                continue
+            w = self.walker()
+            res = w.walk(b)
+            for r in res:
+                if r.kind != "return":
+                    continue
+                stores = [e for e in r.trace if e[0] == "eff" and e[1] == "MAP.entry_store"]
+                if not stores:
+                    continue
+                guarded = any(a[0] == "eq" and pol is True and ("id" in short(a[1]) or "id" in short(a[2])) for a, pol in r.facts.order)
+                chk.require(guarded, rid, d + ":inplace-id-guard", b.span,
+                            "the public in-place update %s stores a replacement without checking that its id equals the key" % b.name, describe_path(r))
 
     def rule_one_store(self, chk, rid):
         """Y1: find/remove/len/is_empty/to_vec/Display/Serialize read the map field (not the ticket queue)"""
